@@ -20,6 +20,20 @@ CLAIMED = {
         "note": TRUSTED,
         "technique": "static analysis: MIR panic/divergence-surface enumeration with dominance-based guard discharge, call-graph SCCs, reviewed allow-table",
     },
+    "C01": {
+        "text": "Static, all-paths over the balance check: every Ok return of check_balance is reachable only under "
+                "is_zero() of the rounded residual or under a complete implied-exchange test (maybe_pair()==Some, both "
+                "members tested non-zero, signs tested different); every other return is Err(UnbalancedPostings); "
+                "maybe_pair yields Some only under len()==2; the one-omitted-amount branch reaches neither check_balance "
+                "nor an Err; every Result produced in book_keeping is propagated up to main's exit(1); and no unguarded "
+                "panic source (division, index, unreachable!) exists in the book-keeping / evaluation / price modules, "
+                "with try_from_syntax's rejection of zero rate / zero amount / same commodity checked as the support of "
+                "posting_price_event's unreachable!.  Necessary conditions of the statement; the valuation arithmetic "
+                "(lot, cost, rate*quantity, rounding) is not decided.",
+        "design_ref": "DESIGN.md §4 C01, §3 E3/E5/E6/E9",
+        "note": TRUSTED,
+        "technique": "static analysis: dominance-based accept-path rule over MIR (guards in force at every Ok return), error-chain consumption analysis, panic-surface enumeration",
+    },
     "C13": {
         "text": "Static, all-sites: every place where HashMap/HashSet iteration order enters the three crates "
                 "(std iterators, the local wrapper types AmountIter / intern::Iter, local functions returning them, "
